@@ -107,6 +107,54 @@ def run_case(ctx, idx, tree, nsmap, missing=(), lay=None):
     return rc, kind, d, order, parsed, out
 
 
+def usability_layer(ctx, rng, quick):
+    """Types of imported packages are USABLE from the importing package: for accepted graphs the generated Python of the root
+    package must import (every namespace it reaches must be bound in it), whatever the order of the import lists.  Graphs: a root
+    that imports three packages in every order while one of them also imports another of them (6 x 6), chains, and random DAGs."""
+    from vlib import PY_VT
+    graphs = []
+    for perm in itertools.permutations([1, 2, 3]):
+        for a in (1, 2, 3):
+            for b in (1, 2, 3):
+                if a != b:
+                    graphs.append({0: list(perm), 1: [], 2: [], 3: [], a: [b]})
+    graphs += [{0: [1], 1: [2], 2: [3], 3: []}, {0: [1, 2], 1: [3], 2: [3], 3: []}, {0: [2, 1], 1: [3], 2: [3, 1], 3: []}]
+    for _ in range(6 if quick else 60):
+        n = rng.randint(3, 6)
+        g = {i: [j for j in rng.sample(range(i + 1, n), rng.randint(0, n - i - 1))] for i in range(n)}
+        if not g[0]:
+            g[0] = [1]
+        graphs.append(g)
+
+    def one(ig):
+        i, tree = ig
+        base = os.path.join(ctx.scratch, "use%d" % i)
+        nsmap = {d: d for d in tree}
+        materialise(base, tree, nsmap)
+        with open(os.path.join(base, pdir(None, 0), "_package.yml"), "a") as f:
+            f.write("python:\n  outputDir: ../outpy\n")
+        rc, o, e = sh([ctx.yardl, "generate"], cwd=os.path.join(base, pdir(None, 0)), timeout=60)
+        if rc != 0:
+            shutil.rmtree(base, ignore_errors=True)
+            return rc, (o + e)[-600:], None
+        pyroot = os.path.join(base, pdir(None, 0), "..", "outpy")
+        rc2, o2, e2 = sh([PY_VT, "-c", "import sys; sys.path.insert(0, %r); import n0; print('IMPORTED')" % pyroot], timeout=120)
+        shutil.rmtree(base, ignore_errors=True)
+        return 0, "", (rc2 == 0 and "IMPORTED" in o2, e2[-600:])
+    with ThreadPoolExecutor(max_workers=12) as ex:
+        res = list(ex.map(one, enumerate(graphs)))
+    for tree, (rc, out, imp) in zip(graphs, res):
+        ctx.count("usability_graphs", "generated" if rc == 0 else "rejected")
+        if rc != 0:
+            ctx.report("valid-graph-rejected", "yardl rejects an acyclic import graph of distinct namespaces: " + out[-200:], {"imports": tree, "output": out})
+            continue
+        ctx.case(("usable", sorted(tree.items())), nontrivial=True, sample={"imports": tree, "python_of_root_imports": imp[0]})
+        if not imp[0]:
+            ctx.report("imported-types-unusable:python", "the Python generated for the root of an accepted import graph cannot be imported "
+                       "(a namespace it reaches is not bound): %s" % imp[1].strip()[-160:], {"imports": tree, "error": imp[1],
+                                                                                            "note": "every package defines T<d> and a record using T of each import"})
+
+
 def coq_case(tree, nsmap, missing, kind, d, order):
     t = "; ".join("(%d, (%d, [%s]))" % (k, nsmap[k], ";".join(map(str, v))) for k, v in tree.items() if k not in missing)
     return "([%s], 0, %d, %d, [%s])" % (t, kind, d, ";".join(map(str, order)))
@@ -127,6 +175,7 @@ def run(ctx):
                    {"broken": failing, "log": log[-3000:]}, no_input=True)
     quick = ctx.tier == "quick"
     rng = ctx.rng
+    usability_layer(ctx, rng, quick)
     cases = []
     # exhaustive small graphs
     for n in (1, 2, 3):
